@@ -202,6 +202,8 @@ func main() {
 			c := witness(a.Only)
 			o := d.h.run(&c, nil)
 			d.account(c, o, "witness", false)
+		case a.Only >= stressBase:
+			d.stressRun(a.Only, 200000)
 		case a.Only >= randomBase:
 			c, o := d.random(a.Only)
 			d.account(c, o, "random", false)
@@ -224,10 +226,10 @@ func main() {
 	}
 
 	// ---- sizes
-	perScenario := a.Pick(0, 1500, 400000) // explored schedules per scenario
+	perScenario := a.Pick(0, 1500, 60000) // explored schedules per scenario
 	corrExplored := a.Pick(0, 110, 1500)   // of which go to Coq (spread evenly)
 	nRandomCorr := a.Pick(a.N, 130, 1500)
-	nRandom := a.Pick(a.Mon, 4000, 150000)
+	nRandom := a.Pick(a.Mon, 4000, 120000)
 	if a.Search {
 		nRandomCorr, corrExplored = 0, 0
 		nRandom *= 5
@@ -290,6 +292,13 @@ func main() {
 			stat.ResetResourceNodeMap()
 		}
 	}
+	// ---- parallel runs
+	nStress := a.Pick(0, 6000, 100000)
+	if a.Search {
+		nStress *= 5
+	}
+	d.stressRun(stressBase, nStress)
+	d.stressRun(stressBase+1, nStress)
 	rep.DistinctNontrivial = d.dist.N()
 	rep.Consts["circuitbreaker.Closed"] = int(circuitbreaker.Closed)
 	rep.Consts["circuitbreaker.HalfOpen"] = int(circuitbreaker.HalfOpen)
